@@ -67,7 +67,14 @@ class Collector:
                 s = core.canon(case)
                 if len(s) < 1500:
                     self.samples.append(case)
-        discs = self.sub.run(case)
+        try:
+            discs = self.sub.run(case)
+        except core.HarnessError:
+            raise
+        except Exception as e:
+            # an exception that passed through txdbus code and that the sub-check did not anticipate is behaviour of the
+            # code under test; one raised purely inside the harness makes exc_key raise HarnessError (exit 2)
+            discs = [core.Disc(core.exc_key(e, self.sub.name + '.uncaught'), core.exc_detail(e))]
         if isinstance(discs, tuple):      # (discrepancies, number of inner executions)
             discs, inner = discs
             self.inner += inner
